@@ -24,6 +24,25 @@ NOTES = {
     "C16-2": "first missed: context value matrix (falsy values)",
     "C18-3": "first missed: names resolved before prepend_repo/append_repo",
     "C19-4": "first missed: read-only memory backend scenario",
+    # round 2 (sub-agents on the tree with all fixes, told what had been tried before)
+    "C01b-1": "C13 first missed: directed scenario re-defining a helper with an equal code object and other defaults",
+    "C01b-2": "first missed: generator feature + corpus history editing only the string constant of a generator expression",
+    "C02b-2": "first missed: generated programs raise a subclass of NonMemoizedException too",
+    "C02b-3": "first missed: value matrix gained 0-d, 3-d, transposed, strided, Fortran-order and (1,0)-shaped arrays (C15 does not look at values)",
+    "C03b-1": "first missed: generator gained callable default values",
+    "C03b-2": "first missed: hand-written package with three aliases of one helper under 12 hash seeds",
+    "C03b-3": "first missed: hand-written packages with equal symbols under different parents",
+    "C04b-2": "first missed: normalize(v) compared with an independent normalisation that observes date arithmetic (DST zone vs fixed offset)",
+    "C04b-3": "first missed: chained partial applications on a function object kept between calls",
+    "C05b-1": "first missed by C05: corpus histories hold an oversize / evicted weak-referenceable result across forget_function",
+    "C05b-2": "a storage-level change: caught by C05 and C07; C06 (cache only) is not concerned",
+    "C07b-2": "first missed: store world gained partition values (index + per-key blobs)",
+    "C07b-3": "first missed: corpus with two calls sharing an override key, one of them forgotten",
+    "C08b-1": "first missed: backend with a cache smaller than any result",
+    "C08b-2": "first missed: scenario on a populated store (other functions' results must keep being served)",
+    "C08b-3": "first missed: scenario with a partition merged on the partition of a nested memento call",
+    "C10b-3": "first missed: corpus with handled non-memoized failing sub-calls (single and batch)",
+    "C10b-5": "needs two threads (outside C10's sequential quantifier); now reached by the added concurrent sub-call scenario",
 }
 rows = []
 for d in sorted(glob.glob("/verif/seeded/*/meta.json")):
